@@ -345,7 +345,7 @@ pub fn run_check_with_context(opts: &CheckOptions<'_>) -> crate::Result<i32> {
             .iter()
             .map(CheckResult::path)
             .chain(checked_dirs.into_iter().map(PathBuf::as_path))
-            .map(|p| p.to_string_lossy().replace('\\', "/"))
+            .map(|p| crate::output::path::path_key(&p.to_string_lossy()))
             .collect(),
         scanned: scan_result.is_some(),
     };
